@@ -476,8 +476,13 @@ class Executor:
     def s_For(self, st, env):
         if st.orelse:
             raise OutOfSubset("for-else", st)
-        it = self.eval(st.iter, env)
         ordinal, spec = self.loop_spec(st)
+        if isinstance(st.iter, ast.Call) and isinstance(st.iter.func, ast.Name) and st.iter.func.id == "enumerate" and len(st.iter.args) == 1 \
+                and "enumerate" not in env and spec is not None:
+            inner = self.eval(st.iter.args[0], env)
+            if isinstance(inner, ObjSeq) or (isinstance(inner, Seq) and not inner.concrete):
+                return self.cut_loop(st, env, inner, ordinal, spec, enumerated=True)
+        it = self.eval(st.iter, env)
         # concrete iteration: unroll
         if isinstance(it, Seq) and it.concrete and spec is None:
             items = list(it.items)
@@ -511,7 +516,7 @@ class Executor:
             raise OutOfSubset("loop#%d without invariant in the sidecar" % ordinal, st)
         self.cut_loop(st, env, None, ordinal, spec)
 
-    def cut_loop(self, st, env, it, ordinal, spec):
+    def cut_loop(self, st, env, it, ordinal, spec, enumerated=False):
         S = self.S
         tag = "loop%d" % ordinal
         names, fields, calls = assigned_names(st.body)
@@ -568,9 +573,15 @@ class Executor:
         # ---- 2. cut: arbitrary iteration  |  exit
         which = self.choice(2, tag)
         self.havoc(env, names, fields, tag)
-        if mode == "seq" and isinstance(itseq, ObjSeq) and isinstance(st.target, ast.Name):
+        view_name = None
+        if mode == "seq" and isinstance(itseq, ObjSeq):
+            if isinstance(st.target, ast.Name):
+                view_name = st.target.id
+            elif enumerated and isinstance(st.target, ast.Tuple) and len(st.target.elts) == 2 and isinstance(st.target.elts[1], ast.Name):
+                view_name = st.target.elts[1].id
+        if view_name is not None:
             # stores through the loop variable (a view of the list element) modify the iterated list: havoc the written fields in place
-            written = set()
+            written = set(getattr(spec, "element_fields_written", ()))
             for n_ in st.body:
                 for sub in ast.walk(n_):
                     tg = []
@@ -579,7 +590,7 @@ class Executor:
                     elif isinstance(sub, ast.AugAssign):
                         tg = [sub.target]
                     for t_ in tg:
-                        if isinstance(t_, ast.Attribute) and isinstance(t_.value, ast.Name) and t_.value.id == st.target.id:
+                        if isinstance(t_, ast.Attribute) and isinstance(t_.value, ast.Name) and t_.value.id == view_name:
                             written.add(t_.attr)
             for f_ in sorted(written):
                 if f_ in itseq.fields and not isinstance(itseq.fields[f_], (list, tuple)):
@@ -596,10 +607,9 @@ class Executor:
                     self.assume(cl.expr, "%s/inv#%s" % (tag, cl.name))
                 if mode == "range":
                     self.assign(st.target, k, env)
-                elif isinstance(itseq, ObjSeq):
-                    self.assign(st.target, _view(itseq, k), env)
                 else:
-                    self.assign(st.target, self.seq_get(itseq, k, st), env)
+                    elem = _view(itseq, k) if isinstance(itseq, ObjSeq) else self.seq_get(itseq, k, st)
+                    self.assign(st.target, Seq("tuple", [k, elem]) if enumerated else elem, env)
             elif mode == "set":
                 P = S.set(tag + ".processed", it.arr.sort().domain())
                 x = S.const(tag + ".x", it.arr.sort().domain())
@@ -1113,6 +1123,8 @@ class Executor:
 
     def e_Attribute(self, e, env):
         o = self.eval(e.value, env)
+        if isinstance(o, tuple) and len(o) == 3 and o[0] == "super":
+            return Func("superbound", o[1], e.attr, o[2])
         if isinstance(o, Obj):
             if e.attr in o.fields:
                 return o.fields[e.attr]
@@ -1256,6 +1268,8 @@ class Executor:
         return z3.Exists([v], z3.And(rng, body))
 
     def e_Call(self, e, env):
+        if isinstance(e.func, ast.Name) and e.func.id == "super" and not e.args and "super" not in env and isinstance(env.get("self"), Obj):
+            return ("super", env["self"], getattr(self, "cur_cls", None) or self.cls_name)
         if isinstance(e.func, ast.Name) and e.func.id in ("all", "any") and len(e.args) == 1 and isinstance(e.args[0], (ast.GeneratorExp, ast.ListComp)) \
                 and len(e.args[0].generators) == 1 and e.func.id not in env:
             r = self.quantified_all_any(e, env)
@@ -1299,6 +1313,14 @@ class Executor:
             if fv.kind == "bound":
                 obj, name = fv.a
                 return self.call_method(obj, name, args, kwargs, node)
+            if fv.kind == "superbound":
+                obj, name, cls = fv.a
+                mro = self.book.mro(obj.cls)
+                rest = mro[mro.index(cls) + 1:] if cls in mro else mro[1:]
+                for base in rest:
+                    if self.book.find_method(base, name) is not None and self.book.find_method(base, name)[1] == base:
+                        return self.call_repo(base, name, obj, args, kwargs, node)
+                raise OutOfSubset("super().%s not found" % name, node)
             if fv.kind == "static":
                 cls, name = fv.a
                 return self.call_repo(cls, name, None, args, kwargs, node)
@@ -1318,7 +1340,7 @@ class Executor:
         fn = self.book.inline_source(self.contract, cls, name)
         if fn is not None:
             fnode, fcls = fn
-            cenv = {}
+            cenv = {"__defining_class__": fcls}
             a = list(args)
             is_static = any(isinstance(d, ast.Name) and d.id in ("staticmethod",) for d in fnode.decorator_list)
             if receiver is not None and not is_static:
@@ -1347,7 +1369,9 @@ class Executor:
             raise OutOfSubset("inline depth", node)
         self._inline_depth = depth + 1
         saved_inl = getattr(self, "inl", "")
+        saved_cls = getattr(self, "cur_cls", None)
         self.fn, self.inl = fn, saved_inl + fn.name + ":"
+        self.cur_cls = cenv.get("__defining_class__", saved_cls)
         try:
             self.exec_block(fn.body, sub)
             return None
@@ -1356,6 +1380,7 @@ class Executor:
         finally:
             self._inline_depth = depth
             self.fn, self.inl = saved_fn, saved_inl
+            self.cur_cls = saved_cls
 
     def construct(self, cls, args, kwargs, node):
         c = self.book.lookup(cls, "__init__")
@@ -1421,6 +1446,15 @@ class Executor:
             self.assume(cl.expr, "%s/post#%s" % (tag, cl.name))
         self.assumed.append("contract of %s assumed at call site L%d" % (c.qualname, node.lineno))
         return result
+
+
+def set_field(obj, name, val):
+    """assign a field of an object; element views of object lists are written back to the list"""
+    obj.fields[name] = val
+    if hasattr(obj, "origin"):
+        oseq, oi = obj.origin
+        rs = oseq.fields[name].sort().range()
+        oseq.fields[name] = z3.Store(oseq.fields[name], oi, V.to_z3(V.bool_to_int(val), rs == z3.RealSort()))
 
 
 def _view(oseq, idx):
